@@ -7,9 +7,9 @@ CHECKS = {'C07': {'level': 'exploration',
          'technique': 'bounded-exhaustive enumeration of (function, origin, direction, initial step, (c1,c2), '
                       'max_iterations, line-search method and interpolation) with every reported step judged by the '
                       'Armijo / Wolfe / strong Wolfe / approximate Wolfe definitions recomputed from the user function',
-         'level_text': 'every registered smooth benchmark function at 1, 2 and 4 (thorough: also 16) dimensions plus '
+         'level_text': 'every registered smooth benchmark function at 1, 2, 4 (thorough: 1, 2, 3, 4, 8, 16) dimensions plus '
                        'harness convex quadratics (condition number 1 and 1e3) is searched from 6 origins (r*ones and '
-                       'r*alternating signs, r in 1e-2, 1, 1e3) along 5 directions (negative gradient, negative '
+                       'r*alternating signs, r in 1e-2, 1, 1e3; thorough: 12 origins, r in 1e-2, 1e-1, 1, 10, 1e2, 1e3) along 5 directions (negative gradient, negative '
                        'gradient rotated by 60 degrees in the first plane, diagonally scaled negative gradient, '
                        'gradient (ascent), zero) with 5 initial steps (1e-3, 1, 1e3, NaN, +inf), 4 tolerance pairs, 4 '
                        'iteration budgets (1, 2, 128, 10000) and all 11 (method, interpolation) configurations of '
@@ -30,6 +30,12 @@ CHECKS = {'C07': {'level': 'exploration',
                          '4 eps (||g0|| + ||g||) ||d|| on the slope inequalities',
                          'More-Thuente and CG_DESCENT are held to their advertised conditions on convex quadratics '
                          'only, elsewhere to the generic clauses (finite positive step, state = evaluation at x + t d)',
+                         'the clauses particular to convex quadratics are judged for max_iterations >= 128 and when '
+                         'the exact line minimum (g0.d)^2 / (2 d\'Ad) is more than 1e-10 (|f0| + ||g0|| ||x0||) below f0; CG_DESCENT '
+                         'reporting success without Wolfe / approximate Wolfe on a quadratic with max_iterations in '
+                         '{1, 2} (budget exhausted while bracketing: interval_t::done() answers true for "bracketing '
+                         'failed" and do_get returns state.valid() as the success flag) is outside that sub-domain: '
+                         'it is counted as an outcome (not-judged:...), not reported as a violation',
                          'origins where the function value or gradient is not finite, and directions whose slope is '
                          'within rounding of zero, are not judged; a failure along a descent direction is allowed '
                          'except on convex quadratics with a finite t0 and max_iterations >= 128',
